@@ -101,7 +101,7 @@ def phase_select(ck):
     vecs = select_vectors(ck)
     vp, op = os.path.join(ck.work, "sel_vec.ndjson"), os.path.join(ck.work, "sel_out.ndjson")
     vlib.write_ndjson(vp, vecs)
-    gotest(ck, "TestVerifSelect", {"VERIF_IN": vp, "VERIF_OUT": op})
+    gotest(ck, "TestVerifSelect", {"C13_IN": vp, "C13_OUT": op})
     rows = read_out(op)
     summ = rows[-1]
     if summ.get("k") != "Sum" or summ["vectors"] != len(vecs):
@@ -122,7 +122,7 @@ def phase_select(ck):
     cv["fw"] = [1 + (cv["fw"][0] % cv["n"])]
     cp, co = os.path.join(ck.work, "sel_canary.ndjson"), os.path.join(ck.work, "sel_canary_out.ndjson")
     vlib.write_ndjson(cp, [cv])
-    gotest(ck, "TestVerifSelect", {"VERIF_IN": cp, "VERIF_OUT": co})
+    gotest(ck, "TestVerifSelect", {"C13_IN": cp, "C13_OUT": co})
     ck.canary("S->C select: corrupted first-working expectation", read_out(co)[-1]["mismatch"] > 0)
     return len(vecs)
 
@@ -232,7 +232,7 @@ def late_key(l):
 def run_gate(ck, scripts, tag):
     ip, op = os.path.join(ck.work, "gate_%s_in.ndjson" % tag), os.path.join(ck.work, "gate_%s_out.ndjson" % tag)
     vlib.write_ndjson(ip, scripts)
-    gotest(ck, "TestVerifGate", {"VERIF_IN": ip, "VERIF_OUT": op, "VERIF_U_MS": str(U_MS), "VERIF_PAR": "32"}, timeout=1500)
+    gotest(ck, "TestVerifGate", {"C13_IN": ip, "C13_OUT": op, "C13_U_MS": str(U_MS), "C13_PAR": "32"}, timeout=1500)
     rows = read_out(op)
     if len(rows) != len(scripts):
         raise Infra("gate replay returned %d of %d scripts" % (len(rows), len(scripts)))
@@ -437,7 +437,7 @@ def phase_gate_traces(ck, gate_res, byid):
 def phase_trace(ck):
     tp = os.path.join(ck.work, "stress.ndjson")
     nseg = 160 if ck.thorough else 18
-    gotest(ck, "TestVerifStress", {"VERIF_OUT": tp, "VERIF_SEED": str(ck.seed), "VERIF_SEGMENTS": str(nseg), "VERIF_PAR": "6"}, timeout=1500)
+    gotest(ck, "TestVerifStress", {"C13_OUT": tp, "C13_SEED": str(ck.seed), "C13_SEGMENTS": str(nseg), "C13_PAR": "6"}, timeout=1500)
     lines = [json.loads(l) for l in open(tp)]
     if not lines or lines[-1].get("k") != "End":
         raise Infra("stress driver died")
@@ -447,7 +447,7 @@ def phase_trace(ck):
     if deferred:
         # record once more with the same seed: an unclassified hang is reported only if the same call sites hang again
         tp2 = os.path.join(ck.work, "stress_again.ndjson")
-        gotest(ck, "TestVerifStress", {"VERIF_OUT": tp2, "VERIF_SEED": str(ck.seed), "VERIF_SEGMENTS": str(nseg), "VERIF_PAR": "6"}, timeout=1500)
+        gotest(ck, "TestVerifStress", {"C13_OUT": tp2, "C13_SEED": str(ck.seed), "C13_SEGMENTS": str(nseg), "C13_PAR": "6"}, timeout=1500)
         again = []
         validate_body(ck, [json.loads(l) for l in open(tp2)][:-1], "stress_again", again)
         keys2 = {k for k, _, _, _ in again}
@@ -553,7 +553,7 @@ def replay(ck, path):
     if r["kind"] == "select":
         vp, op = os.path.join(ck.work, "v.ndjson"), os.path.join(ck.work, "o.ndjson")
         vlib.write_ndjson(vp, [r["vector"]])
-        gotest(ck, "TestVerifSelect", {"VERIF_IN": vp, "VERIF_OUT": op})
+        gotest(ck, "TestVerifSelect", {"C13_IN": vp, "C13_OUT": op})
         rows = read_out(op)
         for x in rows[:-1]:
             print(json.dumps({k: v for k, v in x.items() if k != "v"}))
